@@ -7,6 +7,8 @@ import (
 	"fmt"
 	"go/token"
 	"go/types"
+	"strconv"
+	"strings"
 
 	"golang.org/x/tools/go/ssa"
 )
@@ -195,6 +197,8 @@ func init() {
 		"internal/godebug.setUpdate":           extNop,
 		"internal/godebug.setNewIncNonDefault": extNop,
 		"runtime.SetFinalizer":                 extNop,
+		"internal/abi.NoEscape":                func(fr *frame, args []value) value { return args[0] },
+		"internal/abi.Escape":                  func(fr *frame, args []value) value { return args[0] },
 		"runtime.KeepAlive":                    extNop,
 		"sync.(*Mutex).Lock":                   extNop,
 		"sync.(*Mutex).Unlock":                 extNop,
@@ -265,6 +269,32 @@ func formatSym(format string, args []value) (symstr, bool) {
 		ai++
 		if itf, ok := a.(iface); ok {
 			a = itf.v
+		}
+		if verb == 'v' && spec == "#" {
+			if itf, ok := args[ai-1].(iface); ok {
+				if txt, ok := goSyntax(itf.t, itf.v); ok {
+					out = append(out, toSymstr(txt)...)
+					continue
+				}
+			}
+			return nil, false
+		}
+		if arr, ok := a.(array); ok && (verb == 'x' || verb == 'X') && spec == "" {
+			okAll := true
+			var bs []byte
+			for _, e := range arr {
+				b, isB := e.(uint8)
+				if !isB {
+					okAll = false
+					break
+				}
+				bs = append(bs, b)
+			}
+			if okAll {
+				out = append(out, toSymstr(fmt.Sprintf("%"+string(verb), bs))...)
+				continue
+			}
+			return nil, false
 		}
 		switch x := a.(type) {
 		case sym:
@@ -349,4 +379,51 @@ func init() {
 	externals["fmt.Sprintf"] = extFmtSprintf
 	externals["fmt.Fprintf"] = extFmtFprintf
 	externals["fmt.Errorf"] = extFmtErrorf
+}
+
+
+// goSyntax renders %#v for structs of strings, string slices, booleans and integers (concrete values only).
+func goSyntax(t types.Type, v value) (string, bool) {
+	switch u := t.Underlying().(type) {
+	case *types.Basic:
+		switch x := v.(type) {
+		case string:
+			return strconv.Quote(x), true
+		case bool, int, int8, int16, int32, int64, uint, uint8, uint16, uint32, uint64:
+			return fmt.Sprintf("%#v", x), true
+		}
+		return "", false
+	case *types.Slice:
+		xs, ok := v.([]value)
+		if !ok {
+			return "", false
+		}
+		if xs == nil {
+			return types.TypeString(t, nil) + "(nil)", true
+		}
+		parts := make([]string, len(xs))
+		for i, e := range xs {
+			p, ok := goSyntax(u.Elem(), e)
+			if !ok {
+				return "", false
+			}
+			parts[i] = p
+		}
+		return types.TypeString(t, func(p *types.Package) string { return p.Name() }) + "{" + strings.Join(parts, ", ") + "}", true
+	case *types.Struct:
+		st, ok := v.(structure)
+		if !ok {
+			return "", false
+		}
+		parts := make([]string, len(st))
+		for i := range st {
+			p, ok := goSyntax(u.Field(i).Type(), st[i])
+			if !ok {
+				return "", false
+			}
+			parts[i] = u.Field(i).Name() + ":" + p
+		}
+		return types.TypeString(t, func(p *types.Package) string { return p.Name() }) + "{" + strings.Join(parts, ", ") + "}", true
+	}
+	return "", false
 }
